@@ -388,6 +388,11 @@ func (x *X) evalCall(env *Env, e *ast.CallExpr) TV {
 			case MapV:
 				return TV{S{x.mapLen(a.T.Underlying().(*types.Map), v.Ref), SInt}, types.Typ[types.Int]}
 			}
+		case "strcontains":
+			// strcontains(s, sub): the value strings.Contains(s, sub) (same symbol as the extern model)
+			a, b := x.eval(env, e.Args[0]), x.eval(env, e.Args[1])
+			x.sc.Declare("strings.Contains", []string{SStr, SStr}, SBool)
+			return TV{S{"(strings.Contains " + a.V.(S).T + " " + b.V.(S).T + ")", SBool}, boolT}
 		case "seen":
 			// seen(k): key k was already visited by the enclosing range-over-map loop (ghost)
 			sv, ok := env.vars["$seen"]
